@@ -46,7 +46,7 @@ def lean_type(t) -> str:
             return " × ".join(lean_type_atom(x) for x in t[1])
     return {"int": "Int", "nat": "Nat", "bool": "Bool", "dir": "Dir", "mode": "Mode", "agent": "Agent", "num": "Num", "R": "R",
             "coords": "List Coord", "es": "ES R", "unit": "Unit", "gen": "List Agent", "cfg": "StopCfg R", "book": "Book R",
-            "A": "α", "str": "String", "task": "τ", "self": "Self R σ τ"}[t]
+            "A": "α", "str": "String", "task": "τ", "self": "Self R σ τ", "objval": "ObjVal", "raws": "List Raw", "tasksem": "TaskSem"}[t]
 
 
 def lean_type_atom(t) -> str:
@@ -70,6 +70,8 @@ ATTRS = {
     ("cfg", "fitness_error"): ("{0}.fe", O("R")),
     ("cfg", "max_cycles"): ("{0}.maxCycles", "int"),
     ("cfg", "early_stopping"): ("{0}.es", O("es")),
+    ("tasksem", "minmax"): ("{0}.dir", "dir"),
+    ("tasksem", "objective_weights"): ("{0}.weights", O(L("num"))),
 }
 
 EXC = {"ValueError": "Err.valueError", "IndexError": "Err.indexError", "TypeError": "Err.typeError"}
@@ -153,6 +155,12 @@ SPEC = [
     dict(name="perm_correct", src=("models.py", "PermutationVariable.correct"), params={"value": L("num")}, ret=L("nat")),
     dict(name="perm_size", src=("models.py", "PermutationVariable.size"), params={}, ret="int"),
     dict(name="perm_has_children", src=("models.py", "PermutationVariable.has_children"), params={}, ret="bool"),
+    dict(name="task_solve", src=("models.py", "Task.solve"), params={"x": "raws"}, ret="objval", selfobj=("T", "tasksem")),
+    dict(name="task_initial_solution", src=("models.py", "Task.initial_solution"), params={"solution": O("raws")}, ret="coords", selfobj=("T", "tasksem"),
+         extra=[("empty_solution", "List Raw")]),
+    dict(name="fcn", src=("abstract.py", "OptimizationAbstract._fcn"), params={"x": "coords"}, ret="objval", selfr={"_task": ("T", "tasksem")}),
+    dict(name="init_agent", src=("abstract.py", "OptimizationAbstract._init_agent"), params={"position": O("raws")}, ret="agent", selfr={"_task": ("T", "tasksem")},
+         extra=[("empty_solution", "List Raw"), ("calculate_fitness", "Num → Dir → Num")]),
     dict(name="check_input", src=("multitask.py", "Multitask.__check_input__"), params={"name": "str", "kind": "str", "values": O(L("A"))}, poly=True,
          selfr={"_n_algorithms": ("n_algorithms", "int"), "_m_tasks": ("m_tasks", "int")}, ret=O(L(L("A"))), tuple_params=["values"]),
     dict(name="agent_trend", src=("utils.py", "agent_trend"), params={"result": "result", "idx": "int", "iters": O(L("int"))}, ret=L("num")),
@@ -188,6 +196,8 @@ class Fn:
         self.fresh = 0
         self.lines: list[str] = []
         self.selfrec = bool(spec.get("selfrec"))
+        self.narrow = {}
+        self.var_types = {}
         self.cur_pad = "  "
         self.in_lambda = 0
         self.loop_defs: list[str] = []
@@ -247,6 +257,14 @@ class Fn:
             return f"({term} : Int)"
         if ty == "emptylist" and isinstance(want, tuple) and want[0] == "list":
             return "[]"
+        if ty == "coords" and want == "raws":
+            return f"({atom(term)}.map Coord.toRaw)"
+        if ty == "coords" and want == O("raws"):
+            return f"(some ({atom(term)}.map Coord.toRaw))"
+        if ty == "num" and want == "objval":
+            return f"(ObjVal.single {atom(term)})"
+        if ty == L("num") and want == "objval":
+            return f"(ObjVal.multi {atom(term)})"
         self.err(node, f"type mismatch: have {ty}, want {want}")
 
     def const_R(self, lit, node):
@@ -257,7 +275,23 @@ class Fn:
             return c
         self.err(node, f"numeric literal {lit} in rate arithmetic")
 
+    def tasksem_term(self, node):
+        so = self.spec.get("selfobj")
+        if so and so[1] == "tasksem":
+            return so[0]
+        for path, (nm, ty) in self.selfr.items():
+            if ty == "tasksem":
+                return nm
+        self.err(node, "no task in scope")
+
     def _E(self, n, env, want=None):
+        key = ast.dump(n) if isinstance(n, (ast.Attribute, ast.Name)) else None
+        if key is not None and key in self.narrow:
+            return self.narrow[key]
+        if isinstance(n, ast.IfExp):
+            r = self.ifexp_narrow(n, env)
+            if r is not None:
+                return r
         if isinstance(n, ast.Constant):
             if n.value is None:
                 return "none", "none"
@@ -368,6 +402,62 @@ class Fn:
             return self.call(n, env, want)
         self.err(n, f"expression {type(n).__name__}")
 
+    def ifexp_narrow(self, n, env):
+        """conditional expressions whose test decides the *type* of a name in each branch"""
+        t = n.test
+        # `A if X is not None else B` with X an optional attribute / name
+        if isinstance(t, ast.Compare) and len(t.ops) == 1 and isinstance(t.ops[0], (ast.IsNot, ast.Is)) and isinstance(t.comparators[0], ast.Constant) \
+                and t.comparators[0].value is None and isinstance(t.left, (ast.Attribute, ast.Name)):
+            x, xty = self.E(t.left, env)
+            if isinstance(xty, tuple) and xty[0] == "opt":
+                self.fresh += 1
+                v = f"n{self.fresh}"
+                yes, no = (n.body, n.orelse) if isinstance(t.ops[0], ast.IsNot) else (n.orelse, n.body)
+                key = ast.dump(t.left)
+                old = self.narrow.get(key)
+                self.narrow[key] = (v, xty[1])
+                try:
+                    a, aty = self.E(yes, env)
+                finally:
+                    if old is None:
+                        self.narrow.pop(key, None)
+                    else:
+                        self.narrow[key] = old
+                b, bty = self.E(no, env)
+                if aty == "intlit" and bty != "intlit":
+                    a, aty = self.coerce(a, aty, bty, yes), bty
+                if bty == "intlit" and aty != "intlit":
+                    b, bty = self.coerce(b, bty, aty, no), aty
+                if aty == "intlit" and bty == "intlit":
+                    aty = bty = "int"
+                if aty != bty:
+                    self.err(n, f"branches of different types {aty} / {bty}")
+                if "(← " in a or "(← " in b:
+                    self.need_eff(n)
+                    return f"(← (match {x} with | some {v} => (do return {a}) | none => (do return {b})))", aty
+                return f"(match {x} with | some {v} => {a} | none => {b})", aty
+        # `A if isinstance(X, list) else B` with X a `float | list[float]` value
+        if isinstance(t, ast.Call) and isinstance(t.func, ast.Name) and t.func.id == "isinstance" and len(t.args) == 2 and isinstance(t.args[0], ast.Name) \
+                and isinstance(t.args[1], ast.Name) and t.args[1].id == "list" and env.get(t.args[0].id, (None, None))[1] == "objval":
+            nm = t.args[0].id
+            x = env[nm][0]
+            self.fresh += 1
+            vl, vs = f"l{self.fresh}", f"s{self.fresh}"
+            a, aty = self.E(n.body, {**env, nm: (vl, L("num"))})
+            b, bty = self.E(n.orelse, {**env, nm: (vs, "num")})
+            if "(← " in a or "(← " in b:
+                self.err(n, "effectful branch of an isinstance conditional")
+            if aty == L("num") and bty == "num":
+                return f"(match {x} with | .multi {vl} => ObjVal.multi {a} | .single {vs} => ObjVal.single {b})", "objval"
+            if aty == "intlit":
+                aty = "int"
+            if bty == "intlit":
+                bty = "int"
+            if aty != bty:
+                self.err(n, f"branches of different types {aty} / {bty}")
+            return f"(match {x} with | .multi {vl} => {a} | .single {vs} => {b})", aty
+        return None
+
     def truthy(self, term, ty, node):
         if ty == "bool":
             return term
@@ -441,6 +531,8 @@ class Fn:
             if isinstance(n.op, ast.Sub):
                 return f"(ar.sub {atom(x)} {atom(y)})", "R"
             self.err(n, "rate arithmetic other than subtraction")
+        if isinstance(n.op, ast.Mult) and yt == "num" and ast.unparse(n.left) == "-1":
+            return f"(Num.neg {atom(y)})", "num"       # `-1 * x`: exact on doubles
         if isinstance(xt, tuple) and xt[0] == "list" and xt == yt and isinstance(n.op, ast.Add):
             return f"({x} ++ {y})", xt
         self.err(n, f"operator on {xt} and {yt}")
@@ -573,6 +665,12 @@ class Fn:
             if name == "isinstance" and len(n.args) == 2 and isinstance(n.args[0], ast.Name) and n.args[0].id in self.spec.get("tuple_params", []) \
                     and isinstance(n.args[1], ast.Name) and n.args[1].id == "tuple":
                 return "true", "bool"        # the typing SPEC declares this parameter a tuple: the non-tuple call is outside the translation
+            if name == "isinstance" and len(n.args) == 2 and ast.unparse(n.args[1]) == "np.ndarray":
+                self.E(n.args[0], env)
+                return "false", "bool"       # values cross the boundary as lists: an ndarray and its tolist() are the same value here
+            if name == "isinstance" and len(n.args) == 2 and isinstance(n.args[0], ast.Name) and ast.unparse(n.args[1]) == "list" \
+                    and env.get(n.args[0].id, (None, None))[1] == "objval":
+                return f"(ObjVal.isList {env[n.args[0].id][0]})", "bool"
             if name == "deepcopy" and len(n.args) == 1 and not n.keywords:
                 return self.E(n.args[0], env)  # values have no identity
             if name == "print":
@@ -581,6 +679,37 @@ class Fn:
                 pname, _, rty = self.spec["opaque"][name]
                 args = [self.E(a, env)[0] for a in n.args]
                 return f"({pname} " + " ".join(atom(a) for a in args) + ")", rty
+            if name == "Agent" and not n.args and {kw.arg for kw in n.keywords} == {"position", "cost", "fitness"}:
+                if self.in_lambda:
+                    self.err(n, "Agent(...) inside a comprehension")
+                kws = {kw.arg: kw.value for kw in n.keywords}
+                self.need_eff(n)
+                self.fresh += 1
+                k = self.fresh
+                vals = {}
+                for arg in ("position", "cost", "fitness"):          # argument expressions first, in source order …
+                    t, ty = self.E(kws[arg], env)
+                    self.lines.append(f"{self.cur_pad}let a{k}_{arg} := {t}")
+                    vals[arg] = ty
+                if vals["position"] != "coords":
+                    self.err(n, f"Agent(position=…) of type {vals['position']}")
+                cost = f"a{k}_cost"
+                if vals["cost"] == "objval":                           # … then pydantic's validation of `cost: float`
+                    self.lines.append(f"{self.cur_pad}let a{k}_cost ← Py.asFloat a{k}_cost")
+                elif vals["cost"] != "num":
+                    self.err(n, f"Agent(cost=…) of type {vals['cost']}")
+                if vals["fitness"] != "num":
+                    self.err(n, f"Agent(fitness=…) of type {vals['fitness']}")
+                return f"({{ position := a{k}_position, cost := a{k}_cost, fitness := a{k}_fitness, tag := 0 }} : Agent)", "agent"
+            if name in [e[0] for e in self.spec.get("extra", [])] and name == "calculate_fitness" and len(n.args) == 2:
+                c, cty = self.E(n.args[0], env)
+                d, dty = self.E(n.args[1], env)
+                if cty == "objval":        # a list reaching `value >= 0` is a TypeError
+                    self.need_eff(n)
+                    c = f"(← Py.asFloatT {atom(c)})"
+                elif cty != "num":
+                    self.err(n, f"calculate_fitness of a {cty}")
+                return f"(calculate_fitness {atom(c)} {atom(d)})", "num"
             if name in self.table:
                 return self.call_translated(name, n, env, method=False)
             if name in self.spec.get("nested", {}):
@@ -610,6 +739,52 @@ class Fn:
                         self.err(n, f"np.clip argument of type {ty}")
                     parts.append(atom(t))
                 return f"(Num.clip {parts[0]} {parts[1]} {parts[2]})", "num"
+            if isinstance(f.value, ast.Name) and f.value.id == "np" and f.attr == "atleast_1d" and len(n.args) == 1 and not n.keywords:
+                t, ty = self.E(n.args[0], env)
+                if ty == "objval":
+                    return f"(ObjVal.toList {atom(t)})", L("num")
+                if ty == "num":
+                    return f"[{t}]", L("num")
+                if ty == L("num"):
+                    return t, ty
+                self.err(n, f"np.atleast_1d of a {ty}")
+            if isinstance(f.value, ast.Name) and f.value.id == "np" and f.attr == "dot" and len(n.args) == 2 and not n.keywords:
+                a, aty = self.E(n.args[0], env)
+                b, bty = self.E(n.args[1], env)
+                if aty != L("num") or bty != L("num"):
+                    self.err(n, f"np.dot of {aty} and {bty}")
+                return f"({self.tasksem_term(n)}.dot {atom(a)} {atom(b)})", "num"
+            # methods of the task object (`self` inside Task, `self._task` inside an optimizer)
+            if f.attr in ("correct_solution", "objective_function", "empty_solution", "solve", "initial_solution"):
+                rt, rty = (None, None)
+                if isinstance(f.value, ast.Name) and f.value.id == "self" and self.spec.get("selfobj", (None, None))[1] == "tasksem":
+                    rt, rty = self.spec["selfobj"][0], "tasksem"
+                elif self.self_path(f.value) is not None and not self.selfrec:
+                    try:
+                        rt, rty = self.E(f.value, env)
+                    except Untranslatable:
+                        rt = None
+                if rty == "tasksem":
+                    if f.attr == "correct_solution" and len(n.args) == 1:
+                        a, aty = self.E(n.args[0], env)
+                        if aty == "coords":
+                            a = f"({atom(a)}.map Coord.toRaw)"
+                        elif aty != "raws":
+                            self.err(n, f"correct_solution of a {aty}")
+                        self.need_eff(n)
+                        return f"(← {rt}.decl.correctSolution {atom(a)})", "coords"
+                    if f.attr == "objective_function" and len(n.args) == 1:
+                        a, aty = self.E(n.args[0], env)
+                        if aty != "coords":
+                            self.err(n, f"objective_function of a {aty}")
+                        return f"({rt}.F {atom(a)})", "objval"
+                    if f.attr == "empty_solution" and not n.args:
+                        if "empty_solution" not in [e[0] for e in self.spec.get("extra", [])]:
+                            self.err(n, "empty_solution not declared")
+                        return "empty_solution", "raws"
+                    key = f"Task::self.{f.attr}"
+                    if key in self.table:
+                        return self.call_translated(key, n, env, method=True, receiver=rt)
             # np.argsort(xs, axis=0)
             if isinstance(f.value, ast.Name) and f.value.id == "np" and f.attr == "argsort":
                 t, ty = self.E(n.args[0], env)
@@ -663,7 +838,8 @@ class Fn:
             self.err(n, f"method .{f.attr}()")
         self.err(n, "call")
 
-    def call_translated(self, key, n, env, method):
+    def call_translated(self, key, n, env, method, receiver=None):
+        self.receiver = receiver
         callee_spec, callee_node = self.table[key]
         if "kwargs" in callee_spec:
             return self.call_kwargs_ctor(callee_spec, callee_node, n, env)
@@ -765,6 +941,14 @@ class Fn:
 
     def implicit_args(self, cs, node):
         out = []
+        if cs.get("selfobj"):
+            if not getattr(self, "receiver", None):
+                self.err(node, "method of an object called without a receiver")
+            out.append(self.receiver)
+        for nm, _ in cs.get("extra", []):
+            if nm not in [e[0] for e in self.spec.get("extra", [])]:
+                self.err(node, f"callee needs {nm}, which the caller does not have")
+            out.append(nm)
         if cs.get("R"):
             out.append("ar")
         for _, (pname, _, _) in cs.get("opaque", {}).items():
@@ -939,6 +1123,8 @@ class Fn:
                 self.err(target, f"unpacking a {vty}")
             self.need_eff(target)
             name = target.elts[0].id
+            if name in self.muts and self.var_types.get(name) == "objval":
+                env[name] = (name, "objval")
             self.declare(name, vty[1], f"(← Py.unpack1 {atom(v)})", env, pad)
             return
         if isinstance(target, ast.Tuple) and all(isinstance(e, ast.Name) for e in target.elts):
@@ -991,9 +1177,17 @@ class Fn:
         return self.local_types.get(name)
 
     def declare(self, name, ty, term, env, pad):
+        if name in self.muts and self.var_types.get(name) == "objval" and ty in ("num", L("num"), "objval"):
+            self.lines.append(f"{pad}{name} := {self.coerce(term, ty, 'objval', None)}")
+            env[name] = (name, "objval")
+            return
+        if name in env and env[name][0] == name and name in self.muts and env[name][1] != ty:
+            # a name re-bound to a value of another type (`position = task.initial_solution(position)`): a new binding shadows the old one
+            self.lines.append(f"{pad}let {name} := {term}")
+            env[name] = (name, ty)
+            self.muts.discard(name)
+            return
         if name in env and env[name][0] == name and name in self.muts:
-            if env[name][1] != ty:
-                self.err(None, f"local {name} changes type from {env[name][1]} to {ty}")
             self.lines.append(f"{pad}{name} := {term}")
         else:
             kw = "let mut" if name in self.reassigned else "let"
@@ -1001,6 +1195,7 @@ class Fn:
             env[name] = (name, ty)
             if name in self.reassigned:
                 self.muts.add(name)
+                self.var_types[name] = ty
 
     def expr_stmt(self, v, env, pad):
         if isinstance(v, ast.Call) and isinstance(v.func, ast.Attribute) and self.spec.get("hooks"):
@@ -1188,6 +1383,31 @@ class Fn:
                 env[x] = (x, xty[1])
                 self.muts.discard(x)
                 return
+        if isinstance(test, ast.Compare) and len(test.ops) == 1 and isinstance(test.ops[0], ast.IsNot) and isinstance(test.comparators[0], ast.Constant) \
+                and test.comparators[0].value is None and isinstance(test.left, ast.Attribute):
+            x, xty = self.E(test.left, env)
+            if isinstance(xty, tuple) and xty[0] == "opt":
+                self.fresh += 1
+                v = f"n{self.fresh}"
+                key = ast.dump(test.left)
+                self.lines.append(f"{pad}if let some {v} := {x} then")
+                self.narrow[key] = (v, xty[1])
+                try:
+                    self.S(s.body, dict(env), ind + 1)
+                finally:
+                    self.narrow.pop(key, None)
+                if s.orelse:
+                    self.lines.append(f"{pad}else")
+                    self.S(s.orelse, dict(env), ind + 1)
+                return
+        if isinstance(test, ast.Call) and isinstance(test.func, ast.Name) and test.func.id == "isinstance" and len(test.args) == 2 and isinstance(test.args[0], ast.Name) \
+                and ast.unparse(test.args[1]) == "list" and env.get(test.args[0].id, (None, None))[1] == "objval" and not s.orelse:
+            nm = test.args[0].id
+            self.fresh += 1
+            vl = f"l{self.fresh}"
+            self.lines.append(f"{pad}if let .multi {vl} := {env[nm][0]} then")
+            self.S(s.body, {**env, nm: (vl, L("num"))}, ind + 1)
+            return
         c, cty = self.E(test, env)
         self.lines.append(f"{pad}if {self.truthy(c, cty, test)} then")
         self.S(s.body, dict(env), ind + 1)
@@ -1245,6 +1465,10 @@ class Fn:
             header.append(f"({c} : R)")
         if sp.get("pool"):
             header.append("(σ : List Nat)")
+        if sp.get("selfobj"):
+            header.append(f"({sp['selfobj'][0]} : {lean_type(sp['selfobj'][1])})")
+        for nm, lty in sp.get("extra", []):
+            header.append(f"({nm} : {lty})")
         self.sig_header = " ".join(header)          # type / opaque parameters shared with a loop definition
         for path, (pname, ty) in list(self.selfr.items()) + list(self.selfw.items()):
             header.append(f"({pname} : {lean_type(ty)})")
@@ -1353,8 +1577,12 @@ def infer_effects(table) -> set[str]:
                         if cand in table:
                             cs.add(cand)
                             break
-                if isinstance(n.func, ast.Name) and n.func.id == "int":
+                if isinstance(n.func, ast.Name) and n.func.id in ("int", "Agent"):
                     own = True
+                if isinstance(n.func, ast.Attribute) and n.func.attr == "correct_solution":
+                    own = True
+                if isinstance(n.func, ast.Attribute) and f"Task::self.{n.func.attr}" in table and sp["src"][1].split(".")[0] != "Task":
+                    cs.add(f"Task::self.{n.func.attr}")
         calls[key] = cs
         if own or sp.get("selfrec"):
             eff.add(key)
